@@ -4,6 +4,11 @@ manifest is always valid)."""
 import json, sys
 
 CHECKS = {
+ "C05": dict(
+   text="Structural necessary conditions for dead-node records and pruning, decided on every path: AddChange cancels the dead record of re-created content on every path and dead records are keyed by the recorded node's hash; every node hash starts with the node's origin; the pruner forwards a record only under the strict test round < version, deletes only keys/rounds that came from forwarded records, drops records only after all node deletes, and writer/reader/deleter agree on record key codec (big-endian) and column families.",
+   note="Does not decide reachability of recorded nodes from later roots (a graph property of runtime content). The RocksDB binding is analysed as a named API. Channel hand-over between the iterator goroutine and the deleter is assumed faithful.",
+   technique="must-pass-through and strict-guard checks, provenance dataflow of deleted keys, writer/reader codec agreement on go/ssa",
+   ref="DESIGN.md section 5 C05"),
  "C04": dict(
    text="Structural necessary conditions of a complete, crash-safe save, decided on every path: the trie writes its store and feeds its change collector only in insertNode/deleteNode, every (re)created node is collected unless its hash is unchanged, each node is stored under its own hash; a save is exactly one MultiPutNode batch (keys[i] = hash of nodes[i] = copy of the change's New node) before any delete, deletes only under includeDeletes, arguments passed through unchanged; the persistent store reaches RocksDB only through one WriteBatch written once after the loop; plus FRESH-node (no in-place write to shared node bytes).",
    note="Does not decide completeness of the change set for every history (rests on C01's map semantics) nor RocksDB's own atomicity (batches are the atomic unit by the property's quantifier). The RocksDB binding is analysed as a named API (it cannot be compiled here).",
